@@ -144,6 +144,7 @@ func checkC07(c *Ctx, r *Report) {
 
 	checkIDStringHeader(c, r)
 	checkDCMIVersionGuards(c, r)
+	checkRejectedLayersNotAdded(c, r)
 
 	r.Rule("accepts-minimal-encoding", "the decoder has a success path for the specification's shortest valid encodings", 10)
 	for _, m := range minimalEncodings {
